@@ -16,6 +16,7 @@ import (
 	"net"
 	"os"
 	"sort"
+	"strings"
 	"sync"
 	"time"
 
@@ -24,7 +25,9 @@ import (
 	"github.com/scionproto/scion/pkg/daemon"
 	"github.com/scionproto/scion/pkg/segment/iface"
 	"github.com/scionproto/scion/pkg/slayers"
+	scpath "github.com/scionproto/scion/pkg/slayers/path"
 	"github.com/scionproto/scion/pkg/slayers/path/empty"
+	scionpath "github.com/scionproto/scion/pkg/slayers/path/scion"
 	"github.com/scionproto/scion/pkg/snet"
 	spath "github.com/scionproto/scion/pkg/snet/path"
 
@@ -137,6 +140,8 @@ type peer struct {
 	nreq  []int              // per client: requests seen this round
 	hops  [][]int            // per client: socket index of every request
 	forms [][]int64          // per client: form of every request (1 interleaved, 0 basic)
+	dps   [][]int            // per client: the offered path whose SCION path every request carried (by its socket index)
+	lastReply time.Time      // when the last reply of this round was handed to the kernel
 	txOf  []map[ntp.Time64]ntp.Time64 // per client: receive stamp -> transmit stamp of earlier replies
 	bad   int
 	// NTS: the key exchange server of the peer and the keys of every session it served
@@ -258,6 +263,8 @@ func (p *peer) newRound(modes [][]int64, fresh bool) {
 	p.nreq = make([]int, n)
 	p.hops = make([][]int, n)
 	p.forms = make([][]int64, n)
+	p.dps = make([][]int, n)
+	p.lastReply = time.Time{}
 	if fresh {
 		p.sess = map[uint64]ntske.Data{} // sessions of earlier histories are over
 		p.txOf = make([]map[ntp.Time64]ntp.Time64, n)
@@ -278,6 +285,9 @@ func (p *peer) serve(k int, c *net.UDPConn) {
 		reply := p.handle(k, buf[:n], rx)
 		if reply != nil {
 			c.WriteToUDPAddrPort(reply, from)
+			p.mu.Lock()
+			p.lastReply = time.Now()
+			p.mu.Unlock()
 		}
 	}
 }
@@ -336,6 +346,18 @@ func (p *peer) handle(k int, b []byte, rx time.Time) []byte {
 	}
 	ilvForm := req.OriginTime != (ntp.Time64{}) || req.ReceiveTime != (ntp.Time64{})
 	p.hops[ci] = append(p.hops[ci], k)
+	// which offered path's SCION path the request carries: the paths with metadata have a one-segment path whose
+	// first hop field names the path (1000 + socket index); a request with an empty path counts for its next hop
+	dp := k
+	if scn.PathType == scionpath.PathType {
+		dp = -1
+		if raw, ok := scn.Path.(*scionpath.Raw); ok {
+			if hf, err := raw.GetHopField(0); err == nil {
+				dp = int(hf.ConsEgress) - 1000
+			}
+		}
+	}
+	p.dps[ci] = append(p.dps[ci], dp)
 	if ilvForm {
 		p.forms[ci] = append(p.forms[ci], 1)
 	} else {
@@ -354,6 +376,9 @@ func (p *peer) handle(k int, b []byte, rx time.Time) []byte {
 			resp.OriginTime = req.ReceiveTime
 			resp.TransmitTime = tx
 		}
+	}
+	if mode == 3 {
+		return nil // this path does not answer
 	}
 	if mode == 2 {
 		resp.Stratum = 0 // fails the client's metadata check at once
@@ -432,8 +457,32 @@ type roundIn struct {
 	fps     []int64    // plain histories: fingerprint id of every offered path
 	d       uint32     // default word
 	tape    []uint32   // scripted random words
-	modes   [][]int64  // per client, per request
+	modes   [][]int64  // per client, per request (0 conformant, 1 basic reply, 2 rejected reply, 3 no reply)
 	vals    [][]int64  // per client, per accepted exchange: what its filter returns
+	pause   bool       // 3.3 s pass before the round
+	cancel  bool       // the round is started with a context that is already cancelled
+}
+
+func (r *roundIn) flags() int64 {
+	f := int64(0)
+	if r.pause {
+		f |= 1
+	}
+	if r.cancel {
+		f |= 2
+	}
+	return f
+}
+
+func (r *roundIn) hasSilent() bool {
+	for _, m := range r.modes {
+		for _, x := range m {
+			if x == 3 {
+				return true
+			}
+		}
+	}
+	return false
 }
 
 type histIn struct {
@@ -462,7 +511,7 @@ var (
 	quiet   = slog.New(nullHandler{})
 	disturbed = map[string]int{}
 	roundsRun int
-	slowRounds, abandoned, deadlineHits int
+	slowRounds, abandoned, deadlineHits, slowSilent int
 )
 
 type nullHandler struct{}
@@ -507,10 +556,40 @@ func (h *offHandler) take() []int64 {
 
 const roundTimeout = 10 * time.Second
 
+// a round in which a path may stay silent gets a short context: the client on that path waits for its end
+const silentTimeout = 300 * time.Millisecond
+
+// in such a round every reply must have left the peer this long after the start of the round; otherwise the
+// machine is too slow to tell a silent path from a late answer and the round is not recorded
+const silentReplyBy = 120 * time.Millisecond
+
+const pauseLen = 3300 * time.Millisecond
+
 // the IA with id n (ids of destination IAs in pather histories; id 0 is also the server's IA of a plain
 // history with NTS clients, where the server must be in another AS than the client)
 func iaOf(n int64) addr.IA { return addr.MustIAFrom(1, addr.AS(0xff0000000200+uint64(n))) }
 
+// rawPath is a serialized one-segment SCION path whose hop fields name the offered path k.
+func rawPath(k int) []byte {
+	dec := scionpath.Decoded{
+		Base: scionpath.Base{PathMeta: scionpath.MetaHdr{SegLen: [3]uint8{2, 0, 0}}, NumINF: 1, NumHops: 2},
+		InfoFields: []scpath.InfoField{{ConsDir: true, SegID: uint16(k), Timestamp: 1}},
+		HopFields: []scpath.HopField{
+			{ExpTime: 63, ConsIngress: 0, ConsEgress: uint16(1000 + k)},
+			{ExpTime: 63, ConsIngress: uint16(2000 + k), ConsEgress: 0},
+		},
+	}
+	raw := make([]byte, dec.Len())
+	if err := dec.SerializeTo(raw); err != nil {
+		panic(err)
+	}
+	return raw
+}
+
+// mkPathTo: offered path k with fingerprint id fp.  A path with metadata has its own SCION path (so that the
+// peer sees which path a request was built from, not only where it was sent) and differing MTU / latency /
+// bandwidth / expiry (nothing of which may influence the assignment); fingerprint 0 is the metadata-less path
+// with the empty dataplane path, as timeservice.go builds it for a server in the own AS.
 func mkPathTo(dst addr.IA, k int, fp int64) snet.Path {
 	p := spath.Path{
 		Src: ia, Dst: dst,
@@ -518,7 +597,15 @@ func mkPathTo(dst addr.IA, k int, fp int64) snet.Path {
 		NextHop:       &net.UDPAddr{IP: thePeer.ip, Port: thePeer.ports[k]},
 	}
 	if fp != 0 {
-		p.Meta = snet.PathMetadata{Interfaces: []snet.PathInterface{{ID: iface.ID(fp), IA: ia}, {ID: iface.ID(1000 + fp), IA: ia}}}
+		p.DataplanePath = spath.SCION{Raw: rawPath(k)}
+		q := (k*7919 + int(fp)*104729) % 97
+		p.Meta = snet.PathMetadata{
+			Interfaces: []snet.PathInterface{{ID: iface.ID(fp), IA: ia}, {ID: iface.ID(1000 + fp), IA: ia}},
+			MTU:        uint16(1200 + 8*(96-q)),
+			Expiry:     time.Now().Add(time.Duration(1+q) * time.Hour),
+			Latency:    []time.Duration{time.Duration(1+q) * time.Millisecond},
+			Bandwidth:  []uint64{uint64(1000 * (100 - q))},
+		}
 	}
 	return p
 }
@@ -616,7 +703,7 @@ func (h *histIn) argsStr(nrounds int) string {
 				first = lib.L(lib.Bool(r.refresh.liaOK), lib.L(as...))
 			}
 		}
-		rs[i] = lib.L(first, lib.U(uint64(r.d)), wordsStr(r.tape), nested(r.modes), nested(r.vals))
+		rs[i] = lib.L(first, lib.U(uint64(r.d)), wordsStr(r.tape), nested(r.modes), nested(r.vals), lib.I(r.flags()))
 	}
 	if h.pather {
 		return lib.V(lib.L(cfg...), lib.IL(h.dstIAs), lib.I(h.q), lib.L(rs...))
@@ -639,7 +726,7 @@ func (h *histIn) kind() string {
 }
 
 var statKeys = []string{"keep", "keepempty", "ilvreset", "fewpaths", "manypaths", "nopaths", "drawn", "nofilt", "nofiltilv", "nts", "ntsilv",
-	"refresh", "liafail", "lookupfail", "gone", "shared"}
+	"refresh", "liafail", "lookupfail", "gone", "shared", "silent", "pause", "keepold", "cancel", "ctxerr"}
 
 // runHist drives the real MeasureClockOffsetSCION through the rounds of h and writes one case.
 func runHist(tags string, h *histIn) {
@@ -689,7 +776,8 @@ func runHist(tags string, h *histIn) {
 			dstIAs = append(dstIAs, iaOf(d))
 		}
 	}
-	var truth []int64 // pather histories: fingerprints of the paths the daemon last reported for the server's IA
+	old := make([]bool, nc) // for the tags: the client's previous accepted exchange is more than 3 s old
+	var truth []int64       // pather histories: fingerprints of the paths the daemon last reported for the server's IA
 
 	var outs []string
 	stat := map[string]bool{}
@@ -698,6 +786,14 @@ func runHist(tags string, h *histIn) {
 	histWall := time.Now().Round(0) // wall clock only: the clients' 3 s window is taken on the wall clock
 	for ri := range h.rounds {
 		r := &h.rounds[ri]
+		if r.pause {
+			// more than 3 s without an exchange: afterwards no client may send an interleaved request before it
+			// has completed another exchange; the 2 s limit of the history starts anew
+			time.Sleep(pauseLen)
+			histStart = time.Now()
+			histWall = time.Now().Round(0)
+			stat["pause"] = true
+		}
 		// what the exported getters say before the round (for the tags only)
 		preIlv := make([]bool, nc)
 		preFp := make([]int64, nc)
@@ -718,6 +814,7 @@ func runHist(tags string, h *histIn) {
 		var ps []snet.Path
 		var offered []string
 		var ofps []int64 // fingerprint of the path behind every socket offered in this round
+		oddLookups := 0  // lookups of this round's refresh with another source than the local IA or without the refresh flag
 		if h.pather {
 			if r.refresh != nil {
 				fd := &fakeDaemon{liaOK: r.refresh.liaOK, answers: map[addr.IA][]snet.Path{}, fails: map[addr.IA]bool{}}
@@ -756,9 +853,7 @@ func runHist(tags string, h *histIn) {
 					}
 					truth = nt
 				}
-				if fd.odd > 0 {
-					tags += ",oddlookup"
-				}
+				oddLookups = fd.odd
 			}
 			ps = pather.Paths(dstIA)
 			ofps = make([]int64, maxPaths)
@@ -783,9 +878,18 @@ func runHist(tags string, h *histIn) {
 		var off time.Duration
 		var err error
 		panicked := false
+		timeout := roundTimeout
+		silent := r.hasSilent()
+		if silent {
+			timeout = silentTimeout
+		}
 		t := withTape4(r.tape, r.d, func() {
-			ctx, cancel := context.WithTimeout(context.Background(), roundTimeout)
+			ctx, cancel := context.WithTimeout(context.Background(), timeout)
 			defer cancel()
+			if r.cancel {
+				ctx, cancel = context.WithCancel(context.Background())
+				cancel()
+			}
 			defer func() {
 				if recover() != nil {
 					panicked = true
@@ -793,14 +897,29 @@ func runHist(tags string, h *histIn) {
 			}()
 			_, off, err = client.MeasureClockOffsetSCION(ctx, dlog, ntpcs, laddr, raddr, ps)
 		})
-		hitDeadline := time.Since(start) >= roundTimeout
+		hitDeadline := time.Since(start) >= timeout
+		if silent {
+			// give the exchanges that ended with the context a moment to return; a reply that left the peer late
+			// means the machine is too slow for this round: not recorded, the history ends
+			time.Sleep(20 * time.Millisecond)
+			thePeer.mu.Lock()
+			late := !thePeer.lastReply.IsZero() && thePeer.lastReply.Sub(start) > silentReplyBy
+			thePeer.mu.Unlock()
+			if late || time.Since(start) > 2*silentTimeout {
+				slowSilent++
+				break
+			}
+			if hitDeadline {
+				stat["silent"] = true
+			}
+		}
 		unexpected := ""
 		errsSeen := capH.take()
 		if os.Getenv("C15_DEBUG") != "" && time.Since(start) >= roundTimeout {
 			fmt.Fprintf(os.Stderr, "DEADLINE errors: %q\n", errsSeen)
 		}
 		for _, e := range errsSeen {
-			if e != expectedExchangeError {
+			if e != expectedExchangeError && !(silent && hitDeadline && strings.Contains(e, "i/o timeout")) {
 				unexpected = e
 			}
 		}
@@ -808,7 +927,9 @@ func runHist(tags string, h *histIn) {
 			disturbed[unexpected]++
 			break
 		}
-		if hitDeadline {
+		if hitDeadline && silent {
+			// expected: a client waited on a silent path until the context ended
+		} else if hitDeadline {
 			// the round did not end before its context did although every request is answered at once:
 			// recorded as it is (the clients that never probed show up as non-participants)
 			deadlineHits++
@@ -832,6 +953,9 @@ func runHist(tags string, h *histIn) {
 				cls = 1
 			} else if err.Error() == noMeasMsg {
 				cls = 4
+			} else if errors.Is(err, context.Canceled) {
+				cls = 5
+				stat["ctxerr"] = true
 			}
 		}
 		if panicked {
@@ -863,10 +987,29 @@ func runHist(tags string, h *histIn) {
 			}
 			postIlv := ntpcs[i].InInterleavedMode()
 			postFp := fpID(ntpcs[i].InterleavedModePath())
-			cl[i] = lib.L(lib.IL(hl), lib.I(int64(resets)), lib.IL(thePeer.forms[i]), lib.IL(vals), lib.Bool(postIlv), lib.I(postFp))
+			ds := map[int]bool{}
+			for _, k := range thePeer.dps[i] {
+				ds[k] = true
+			}
+			var dl []int64
+			for k := range ds {
+				dl = append(dl, int64(k))
+			}
+			sort.Slice(dl, func(a, b int) bool { return dl[a] < dl[b] })
+			cl[i] = lib.L(lib.IL(hl), lib.I(int64(resets)), lib.IL(thePeer.forms[i]), lib.IL(vals), lib.Bool(postIlv), lib.I(postFp), lib.IL(dl))
 			// statistics for the tags
 			kept := preIlv[i] && len(hl) == 1 && int(hl[0]) < len(ofps) && ofps[hl[0]] == preFp[i] &&
 				len(thePeer.forms[i]) > 0 && thePeer.forms[i][0] == 1
+			if r.pause {
+				old[i] = true
+			}
+			if old[i] && preIlv[i] && len(hl) == 1 && int(hl[0]) < len(ofps) && ofps[hl[0]] == preFp[i] && resets == 0 &&
+				len(thePeer.forms[i]) > 0 && thePeer.forms[i][0] == 0 {
+				stat["keepold"] = true // kept its path although its previous exchange is more than 3 s old
+			}
+			if len(vals) > 0 {
+				old[i] = false
+			}
 			if kept && (resets == 0) {
 				stat["keep"] = true
 				if preFp[i] == 0 {
@@ -909,12 +1052,21 @@ func runHist(tags string, h *histIn) {
 		}
 		ro := []string{lib.L(cl...), lib.I(int64(cls)), lib.I(int64(off)), lib.I(int64(t.pos))}
 		if h.pather {
-			ro = append([]string{lib.L(offered...)}, ro...)
+			ro = append([]string{lib.L(offered...), lib.I(int64(oddLookups))}, ro...)
+		}
+		if r.cancel {
+			stat["cancel"] = true
 		}
 		outs = append(outs, lib.L(ro...))
 		done++
-		if panicked || hitDeadline {
+		if panicked || (hitDeadline && !silent) {
 			break // the clients' state is no longer defined by the history
+		}
+		if r.cancel && cls != 5 && cls != 1 {
+			// with a cancelled context the collection ends at once while the exchanges go on (they have no
+			// deadline): wait for them; the clients' state is no longer defined by the history
+			time.Sleep(40 * time.Millisecond)
+			break
 		}
 	}
 	if done == 0 {
@@ -934,6 +1086,7 @@ func runHist(tags string, h *histIn) {
 	} else if stat["keep"] && stat["ilvreset"] && stat["drawn"] {
 		tags += ",nt"
 	}
+	countTags(h.kind(), tags)
 	w.Case(h.kind(), tags, h.argsStr(done), lib.L(outs...))
 }
 
@@ -960,6 +1113,10 @@ func parseRounds(h *histIn, rvs []val) {
 		}
 		for _, m := range rv.l[4].l {
 			r.vals = append(r.vals, m.i64s())
+		}
+		if len(rv.l) > 5 {
+			fl := rv.l[5].i64()
+			r.pause, r.cancel = fl&1 != 0, fl&2 != 0
 		}
 		h.rounds = append(h.rounds, r)
 	}
